@@ -323,6 +323,15 @@ pub fn run_property(prop: &str, tier: &str, threads: usize, budget: &Budget, fin
                 }
             }
             let hosted = std::env::var("LSVERIF_MIRI").is_ok();
+            if !hosted {
+                // conversions are behaviour too: one digest over the texts this configuration produces
+                // for a fixed family of integers, floats, chars, bools and decoder inputs; the driver
+                // compares it across configurations
+                let (n, d) = conversion_digest();
+                report.bounds.push(format!("conversion digest over {n} values: {d:032x}"));
+                report.extra.insert("conversion_digest".into(), serde_json::json!(format!("{d:032x}")));
+                report.extra.insert("conversion_values".into(), serde_json::json!(n));
+            }
             report.bounds.push(format!("target: {} bit, {} endian{}", usize::BITS, if cfg!(target_endian = "big") { "big" } else { "little" }, if hosted { " (executed by Miri)" } else { "" }));
             bfs(&env, report, &wide, Roots::Empty, d, props, true);
             if !hosted || env.part.is_none_or(|(k, _)| k == 0) {
@@ -350,6 +359,87 @@ pub fn run_property(prop: &str, tier: &str, threads: usize, budget: &Budget, fin
             report.machinery_errors.push(format!("seqmc has no plan for property {prop}"));
         }
     }
+}
+
+/// Texts of a fixed family of values through every conversion, hashed (C20: must not depend on the
+/// build configuration).
+fn conversion_digest() -> (u64, u128) {
+    use lean_string::{LeanString, ToLeanString};
+    let mut acc: Vec<u8> = Vec::with_capacity(1 << 22);
+    let mut n = 0u64;
+    let mut put = |s: &LeanString| {
+        acc.extend_from_slice(s.as_bytes());
+        acc.push(0xff);
+    };
+    for k in 0..128u32 {
+        for d in [-1i128, 0, 1] {
+            let v = (1i128 << k.min(126)) + d;
+            put(&v.to_lean_string());
+            put(&(-v).to_lean_string());
+            put(&(v as i64).to_lean_string());
+            put(&(v as u64).to_lean_string());
+            put(&(v as i32).to_lean_string());
+            put(&(v as u16).to_lean_string());
+            put(&(v as i8).to_lean_string());
+            put(&(v as isize).to_lean_string());
+            put(&(v as u128).to_lean_string());
+            n += 9;
+        }
+    }
+    let mut p: i128 = 1;
+    for _ in 0..38 {
+        for d in [-1i128, 0, 1] {
+            let v = p + d;
+            put(&v.to_lean_string());
+            put(&(v as i64).to_lean_string());
+            put(&(v as u64).to_lean_string());
+            put(&(-(v as i64)).to_lean_string());
+            n += 4;
+        }
+        p *= 10;
+    }
+    let mants64: [u64; 12] = [0, 1, 2, (1 << 52) - 1, 1 << 51, 1 << 50, 3 << 50, 0x5555555555555, 0xAAAAAAAAAAAAA, 1 << 30, (1 << 31) + 1, 0x123456789ABCD];
+    for se in 0..4096u64 {
+        for m in mants64 {
+            put(&f64::from_bits((se << 52) | m).to_lean_string());
+            n += 1;
+        }
+    }
+    let mants32: [u32; 8] = [0, 1, 0x7FFFFF, 0x400000, 0x200000, 0x555555, 0x2AAAAA, 0x12345];
+    for se in 0..512u32 {
+        for m in mants32 {
+            put(&f32::from_bits((se << 23) | m).to_lean_string());
+            n += 1;
+        }
+    }
+    for e in -30..=40 {
+        for lead in ["1", "9", "1.5", "123456789", "9007199254740993", "0.1"] {
+            if let Ok(f) = format!("{lead}e{e}").parse::<f64>() {
+                put(&f.to_lean_string());
+                put(&(f as f32).to_lean_string());
+                put(&(-f).to_lean_string());
+                n += 3;
+            }
+        }
+    }
+    for u in (0..0x110000u32).step_by(97) {
+        if let Some(c) = char::from_u32(u) {
+            put(&c.to_lean_string());
+            put(&LeanString::from(c));
+            n += 2;
+        }
+    }
+    put(&true.to_lean_string());
+    put(&false.to_lean_string());
+    let alpha: [u8; 8] = [0x41, 0x80, 0xBF, 0xC2, 0xE0, 0xED, 0xF0, 0xF4];
+    for code in 0..8usize.pow(4) {
+        let b: Vec<u8> = (0..4).map(|i| alpha[(code >> (3 * i)) & 7]).collect();
+        put(&LeanString::from_utf8_lossy(&b));
+        let u: Vec<u16> = b.iter().map(|&x| if x >= 0xE0 { 0xD800 + x as u16 } else { x as u16 }).collect();
+        put(&LeanString::from_utf16_lossy(&u));
+        n += 2;
+    }
+    (n, hash128(&acc))
 }
 
 /// Runs the allocation-refusal and callback-panic probes over every stored state up to
